@@ -34,10 +34,15 @@ def multiplication_register(
     if total_gain < 0 or gain_elements < 0:
         raise ValueError("Wrong input parameter")
 
+    # Numba has its own random generator, it is seeded from NumPy's generator
+    # so that this model is reproducible with a seed (e.g. 'pipeline_seed')
+    seed: int = int(np.random.randint(0, 2**31 - 1))
+
     detector.pixel.array = multiplication_register_poisson(
         image_cube=detector.pixel.array,
         total_gain=total_gain,
         gain_elements=gain_elements,
+        seed=seed,
     ).astype(float)
 
 
@@ -64,11 +69,13 @@ def multiplication_register_poisson(
     image_cube: np.ndarray,
     total_gain: int,
     gain_elements: int,
+    seed: int,
 ) -> np.ndarray:
     """Calculate total gain of image from EMCCD register.
 
     Cycles through each pixel within the image provided. Returns a final image with signal added.
     """
+    np.random.seed(seed)  # Numba's random generator
 
     new_image_cube = np.zeros_like(image_cube, dtype=np.int32)
 
